@@ -56,6 +56,7 @@ type Conn struct {
 	Delay    func(point string) // optional delay injection ("rx.before", "rx.after", "tx.before", "tx.after")
 	WriteErr func(k int) error
 	OnTake   func(k int) // called inside ReadFrom call #k after it has taken a datagram, before it returns it
+	OnClose  func()      // called at the start of every Close call (before the conn is closed)
 	CloseErr error       // what Close returns (the conn is closed all the same, like a socket whose owner closed it first)
 }
 
@@ -210,6 +211,9 @@ func (c *Conn) isClosedLocked() bool {
 }
 
 func (c *Conn) Close() error {
+	if c.OnClose != nil {
+		c.OnClose()
+	}
 	c.once.Do(func() {
 		c.log(Event{Kind: "close"})
 		close(c.closed)
